@@ -25,7 +25,8 @@ CHECKS = {
          "inputs yields, for each requested output, the meaning of the requested Var, for EVERY extensional operator semantics; proved "
          "through the linearisation theorem run_correct (any well-formed plan computes eval; nested induction over graph trees, "
          "unbounded), named_is_plan (named execution = name-erased plan execution under the name-table validators) and proved-sound "
-         "executable well-formedness checks that the model applies to its own output. Per-run CORRESPONDENCE: the real ModelProto equals the model's output name-for-name on generated programs "
+         "executable well-formedness checks that the model applies to its own output; BY CONSTRUCTION (no validator): no application a requested "
+         "output depends on is dropped and nothing else is emitted (C01_no_application_is_dropped_by_construction). Per-run CORRESPONDENCE: the real ModelProto equals the model's output name-for-name on generated programs "
          "(If/Loop/Scan nesting, closures, sharing, leaks). Direct ORACLE: every built model executed by onnxruntime vs an "
          "independent numpy evaluator of the object graph.",
     note=TB + "Assumed: onnxruntime implements the abstract opsem (each operator's ONNX semantics). 'Legal programs always build' is "
@@ -63,7 +64,12 @@ CHECKS = {
          "consumers (LCA = longest common prefix, proved greatest lower bound); definition before use through enclosing graphs "
          "(well-formed plan) - by proved-sound validators; BY CONSTRUCTION: the builder's explicit-stack DFS lists every node once "
          "with dependencies first (postorder_spec), the GraphProto of scope g holds at top level exactly the nodes assigned to g in "
-         "that order, the whole tree is the ownership map unfolded, no node twice (EmitFacts; premises evaluated on every program). CORRESPONDENCE on an EXHAUSTIVE skeleton family (scope trees x creation scope x body dependence x use "
+         "that order, the whole tree is the ownership map unfolded, no node twice (EmitFacts; premises evaluated on every program); and, proved of "
+         "the ALGORITHM (no validator; premise: acyclic object graph, evaluated on every program): the emitted applications are EXACTLY those a "
+         "requested output depends on (DiscoverFacts: invariant of Builder.discover; CoverageFacts), the alternating-walk lca returns the lowest "
+         "common ancestor on any parent function (LcaFacts), the graph a node is placed in IS the lowest common ancestor - in the final scope "
+         "tree - of all graphs whose traversal contains it (PlacementFacts), every non-argument operand is defined before use in the same or an "
+         "enclosing graph (DefUseFacts). CORRESPONDENCE on an EXHAUSTIVE skeleton family (scope trees x creation scope x body dependence x use "
          "sets) + random leak-heavy programs. ORACLE: independent placement walker on the ModelProto, operator counts, legality rule.",
     note=TB + "Exhaustive only for the stated skeleton family.",
     technique="Coq proof + exhaustive skeleton enumeration + independent walker",
@@ -91,7 +97,8 @@ CHECKS = {
     text="PROOF (coq/props/C05.v): plumbing between a constructor call and the one-node model handed to ONNX inference, for EVERY "
          "inference oracle: slots_roundtrip (positional binding recovers each argument's schema slot for all signatures/argument "
          "patterns, no over/under-trimming), attributes and constant operands forwarded, untyped input => no check and untyped outputs, "
-         "raises iff infer rejects, invented dims stripped; refutation for BatchNormalization inference mode. CORRESPONDENCE: captured "
+         "raises iff infer rejects, invented dims stripped; an argument of the wrong kind for its field raises at the call; refutation for "
+         "BatchNormalization inference mode. CORRESPONDENCE: every input field of every constructor once with a wrong-kind argument; captured "
          "singleton models + outcomes vs the model on ONNX's node-test corpus replayed through all five ai.onnx modules, mutated "
          "ill-typed calls and calling forms. ORACLE: onnx strict inference on an independently built one-node model.",
     note=TB + "ONNX's C++ inference is an oracle (Section variable); ai.onnx.ml modules not covered by C05 (their routines are C06's).",
